@@ -185,4 +185,67 @@ theorem denote_foldl_add {ι : Type} (F : ι → PForm α) (l : List ι) (a : PF
     rw [List.foldl_cons, ih]
     simp only [PForm.denote, List.map_cons, List.sum_cons, add_assoc]
 
+/-! ### ring sums and site sums of `_build_spin_model` -/
+
+theorem sum_range_succ_shift (T : Nat → α) (m : Nat) :
+    ((List.range (m + 1)).map T).sum = T 0 + ((List.range m).map (fun i => T (i + 1))).sum := by
+  rw [List.range_succ_eq_map, List.map_cons, List.sum_cons, List.map_map]
+  rfl
+
+/-- **the periodic ring**: on `m + 1 ≥ 2` qubits the chains selected by
+`i in {j % n, (j + 1) % n}` are the wrap-around pair `σ_m σ_0` (for `i = 0`) and the
+neighbour pairs `σ_i σ_{i+1}` (for `i + 1`). -/
+theorem ring_sum (mat : Nat → Nat → α) {m : Nat} (hm : 1 ≤ m) (ψ : Lab → α) (x : Lab) :
+    ((List.range (m + 1)).map (fun i =>
+        chainApply (fun _ => mat) ((List.range (m + 1)).filter (ringCond (m + 1) i)) ψ x)).sum
+      = applyGate (g1 mat m) (applyGate (g1 mat 0) ψ) x
+        + ((List.range m).map (fun i =>
+            applyGate (g1 mat i) (applyGate (g1 mat (i + 1)) ψ) x)).sum := by
+  rw [sum_range_succ_shift]
+  congr 1
+  · rw [chainApply_perm _ (filter_ring_zero hm)]; rfl
+  · congr 1
+    apply List.map_congr_left
+    intro i hi
+    have hi' : i + 1 < m + 1 := by have := List.mem_range.mp hi; omega
+    rw [chainApply_perm _ (filter_ring_succ hi')]; rfl
+
+/-- the one-site chains: `i == j % n` selects `σ_i`. -/
+theorem site_sum (mat : Nat → Nat → α) (n : Nat) (ψ : Lab → α) (x : Lab) :
+    ((List.range n).map (fun i =>
+        chainApply (fun _ => mat) ((List.range n).filter (siteCond n i)) ψ x)).sum
+      = ((List.range n).map (fun i => applyGate (g1 mat i) ψ x)).sum := by
+  congr 1
+  apply List.map_congr_left
+  intro i hi
+  rw [chainApply_perm _ (filter_site (List.mem_range.mp hi))]; rfl
+
+theorem list_sum_comm {β γ : Type} (F : β → γ → α) (l : List β) (m : List γ) :
+    (l.map (fun t => (m.map (fun k => F t k)).sum)).sum
+      = (m.map (fun k => (l.map (fun t => F t k)).sum)).sum := by
+  induction l with
+  | nil => simp
+  | cons t l ih => simp only [List.map_cons, List.sum_cons, ih, List.sum_map_add]
+
+theorem sum_filter_of_zero {β : Type} (p : β → Bool) (f : β → α) (l : List β)
+    (h : ∀ b ∈ l, p b = false → f b = 0) : ((l.filter p).map f).sum = (l.map f).sum := by
+  induction l with
+  | nil => rfl
+  | cons b l ih =>
+    have ih' := ih (fun b' hb' => h b' (List.mem_cons_of_mem _ hb'))
+    by_cases hp : p b = true
+    · rw [List.filter_cons_of_pos hp, List.map_cons, List.sum_cons, ih', List.map_cons, List.sum_cons]
+    · rw [List.filter_cons_of_neg hp, ih', List.map_cons, List.sum_cons,
+        h b (List.mem_cons_self ..) (by simpa using hp), zero_add]
+
+theorem denote_foldl_foldl_add {ι κ : Type} (F : ι → κ → PForm α) (l : List ι) (l' : List κ)
+    (a : PForm α) (ψ : Lab → α) (x : Lab) :
+    (l.foldl (fun acc q => l'.foldl (fun acc c => PForm.add acc (F q c)) acc) a).denote ψ x
+      = a.denote ψ x + (l.map (fun q => (l'.map (fun c => (F q c).denote ψ x)).sum)).sum := by
+  induction l generalizing a with
+  | nil => simp
+  | cons q l ih =>
+    rw [List.foldl_cons, ih, denote_foldl_add]
+    simp only [List.map_cons, List.sum_cons, add_assoc]
+
 end QV
